@@ -105,6 +105,81 @@ def run(ctx: Ctx) -> None:
                 if b is not None and not math.isnan(b) and not rel_close(b, 1.0, 1e-5 if op == "rms_norm" else 1e-12):
                     ctx.disagree("norm_input_grad_one", key, 1.0, b, ["USProofs.C01.norm_input_grad_one"])
 
+    # ---- which inputs require grad must not matter: the gradient an input receives when it is the only one requiring grad
+    #      equals the one it receives when all do (frozen weights, plain data inputs)
+    for op in ops.OPS:
+        for rep_ in range(2 if quick else 30):
+            case = ops.gen_case(rng, op)
+            if len(case.diff) < 2:
+                continue
+            key = {**case.key(), "requires_grad": "one input at a time"}
+            ctx.count(key, bucket="partial-requires-grad")
+            with ctx.guard(f"C02:{op}:partial-grad", key):
+                base_ = ops.make_inputs(case, 77 + rep_, torch.float64)
+                t_all = ops._req(base_, case)
+                y_ = ops.call_impl(U, case, t_all, 7)
+                gen_ = torch.Generator().manual_seed(991 + rep_)
+                up_ = torch.randn(y_.shape, generator=gen_, dtype=torch.float64)
+                g_all = torch.autograd.grad(y_, [t_all[n] for n in case.diff], up_, allow_unused=True)
+                for n, ga in zip(case.diff, g_all):
+                    if ga is None:
+                        continue
+                    t_one = {k: (v.detach().clone().requires_grad_(k == n) if torch.is_tensor(v) and v.is_floating_point() else v)
+                             for k, v in base_.items()}
+                    y1 = ops.call_impl(U, case, t_one, 7)
+                    (g1,) = torch.autograd.grad(y1, [t_one[n]], up_, allow_unused=True)
+                    if g1 is None or not torch.allclose(g1, ga, rtol=1e-12, atol=0):
+                        ctx.violation(f"C02:{op}:{n}:partial-requires-grad", "the gradient of an input changes when the other inputs "
+                                      "do not require grad", {**key, "wrt": n},
+                                      None if g1 is None else float((g1 / ga).flatten()[0]))
+
+    # ---- an upstream gradient that is an expanded (stride-0) view, as produced by a partial sum downstream
+    for op in ops.OPS:
+        for rep_ in range(1 if quick else 20):
+            case = ops.gen_case(rng, op)
+            key = {**case.key(), "upstream": "expanded view"}
+            with ctx.guard(f"C02:{op}:expanded-upstream", key):
+                t_ = ops._req(ops.make_inputs(case, 55 + rep_, torch.float64), case)
+                y_ = ops.call_impl(U, case, t_, 7)
+                if y_.dim() < 2 or not case.diff:
+                    continue
+                ctx.count(key, bucket="expanded-upstream")
+                gen_ = torch.Generator().manual_seed(313 + rep_)
+                row = torch.randn((1,) + tuple(y_.shape[1:]), generator=gen_, dtype=torch.float64)
+                up_e = row.expand(y_.shape)                       # stride 0 along dim 0
+                g_e = torch.autograd.grad(y_, [t_[n] for n in case.diff], up_e, allow_unused=True, retain_graph=True)
+                g_c = torch.autograd.grad(y_, [t_[n] for n in case.diff], up_e.contiguous(), allow_unused=True)
+                for n, a_, b_ in zip(case.diff, g_e, g_c):
+                    if (a_ is None) != (b_ is None) or (a_ is not None and not torch.allclose(a_, b_, rtol=1e-12, atol=0)):
+                        ctx.violation(f"C02:{op}:{n}:expanded-upstream", "the gradient depends on the memory layout of the upstream "
+                                      "gradient (expanded view vs contiguous copy)", {**key, "wrt": n})
+
+    # ---- cross_entropy: the number of ignored targets is data; the gradient scalar (relative to the sum-reduced reference)
+    #      must not depend on it
+    for red in ("mean", "sum"):
+        for V_, B_ in ((5, 6), (3, 8)):
+            scal = []
+            key = {"op": "cross_entropy", "reduction": red, "vocab": V_, "batch": B_, "ignored_targets": "0..B-2"}
+            ctx.count(key, bucket="cross_entropy/ignored-count")
+            with ctx.guard("C02:cross_entropy:ignored-count", key):
+                gen_ = torch.Generator().manual_seed(V_ * B_)
+                x0 = torch.randn(B_, V_, generator=gen_, dtype=torch.float64)
+                tg0 = torch.randint(1, V_, (B_,), generator=gen_)
+                for k_ in range(0, B_ - 1):
+                    tg = tg0.clone()
+                    tg[:k_] = 0                                     # ignore_index = 0
+                    xi = x0.clone().requires_grad_(True)
+                    (ga,) = torch.autograd.grad(U.cross_entropy(xi, tg, ignore_index=0, reduction=red), xi)
+                    xr = x0.clone().requires_grad_(True)
+                    (gr,) = torch.autograd.grad(torch.nn.functional.cross_entropy(xr, tg, ignore_index=0, reduction="sum"), xr)
+                    s_, res_ = ops.fit(ga, gr)
+                    scal.append(s_)
+                    if res_ > 1e-10:
+                        ctx.violation("C02:cross_entropy:ignored:direction", "gradient is not a multiple of the reference's", {**key, "k": k_}, res_)
+                if any(not rel_close(v, scal[0], 1e-9) for v in scal):
+                    ctx.violation("C02:cross_entropy:ignored:varies", "the gradient scalar depends on how many targets are ignored "
+                                  "(tensor values)", key, scal)
+
     # ---- call-history independence: the scalars measured above after lower-precision warm-up calls equal the scalars a
     #      fresh process measures for the same configuration with no history at all
     if cold:
